@@ -371,7 +371,7 @@ SUBCHECKS = [
     Sub('constants', gen_const, ev_const, chunk=1, floor=1, parallel=False),
     Sub('grid', gen, ev, chunk=2, floor=500, guard=True, envs=4),
     Sub('covariance', gen_cov, ev_cov, chunk=1, floor=50, guard=True, envs=2),
-    Sub('threads', _tg, _te, chunk=1, floor=3, poison=False, fresh=True, timeout=3600),
+    Sub('threads', _tg, _te, chunk=1, floor=3, poison=False, fresh=True, timeout=7200),
     Sub('callforms', *_cf.make('C13', 'transform'), chunk=1, floor=1, guard=True),
     Sub('interpreter', *_ip.make('C13', 'transform'), chunk=1, floor=5, poison=False),
 ]
